@@ -164,7 +164,24 @@ func c14AllocBudget(n int) uint64 {
 
 // c14ExtraTypes: container-of-container types a caller may register by hand (the zoo's own maps do not hold
 // them: they are outside the round-trip domain, but a decoder must survive hostile input for them too).
+// Struct types with an embedding cycle through pointers (legal Go; a walk over embedded types needs a
+// visited set).
+type SelfEmb struct {
+	*SelfEmb
+	Val int32
+}
+type CycA struct {
+	*CycB
+	A int32
+}
+type CycB struct {
+	*CycA
+	B int32
+}
+
 var c14ExtraTypes = map[string]reflect.Type{
+	"SelfEmb":  reflect.TypeOf(SelfEmb{}),
+	"CycA":     reflect.TypeOf(CycA{}),
 	"[[int32":  reflect.TypeOf([][]int32(nil)),
 	"[[string": reflect.TypeOf([][]string(nil)),
 	"[[K00":    reflect.TypeOf([][]*K00(nil)),
